@@ -265,16 +265,14 @@ func Msg(v *Vec, m *sipsp.PSIPMsg, o MsgOpt) {
 		// Buf is what the parser saved only once it set RawMsg (message
 		// complete, or the no-Content-Length verdict); before that it is
 		// whatever the caller handed to Init() / what Reset() deliberately kept
+		if m.Parsed() {
+			// "a reference to buf[] will be saved inside msg.Buf when parsing is complete": only then
+			v.Bytes("Buf", m.Buf, v.Shift)
+		}
 		if m.RawMsg != nil {
 			v.B("RawMsg.nil", false)
-			v.Bytes("Buf", m.Buf, v.Shift)
-			// where the raw message sits inside Buf - when it does: after an error verdict a
-			// library may hand out a RawMsg that is not a part of Buf (nothing says it is)
-			if st := cap(m.Buf) - cap(m.RawMsg); st >= 0 && st+len(m.RawMsg) <= len(m.Buf) && (len(m.RawMsg) == 0 || &m.Buf[st] == &m.RawMsg[0]) {
-				v.Off("RawMsg.start", st, false)
-			} else {
-				v.I("RawMsg.start(not inside Buf)", -1)
-			}
+			// (RawMsg is compared by content below; where it sits relative to Buf is not recorded:
+			// after an error verdict nothing says that it is a part of Buf at all)
 		} else {
 			v.B("RawMsg.nil", true)
 		}
